@@ -95,8 +95,10 @@ void PoolWakeState::wakeRange(int32_t count) {
     } else {
       // At least one worker is parked — need a real wake. Wake just
       // the parked ones (bumpAndWakeN counts).
-      int32_t numSleepers = detail::countSetBits(mask);
-      waiter.bumpAndWakeN(numSleepers, groupSize_);
+      // The group's sleepers share one futex word and the kernel picks which waiters a wake
+      // releases, so waking only as many waiters as there are targeted sleepers can release
+      // non-targeted ones and leave a targeted sleeper parked with work in its ring.
+      waiter.bumpAndWakeAll();
     }
   }
 }
@@ -172,8 +174,10 @@ bool PoolWakeState::cascadeWakeSeed(int32_t count) {
     if (mask == 0) {
       waiter.bump();
     } else {
-      int32_t numSleepers = detail::countSetBits(mask);
-      waiter.bumpAndWakeN(numSleepers, groupSize_);
+      // The group's sleepers share one futex word and the kernel picks which waiters a wake
+      // releases, so waking only as many waiters as there are targeted sleepers can release
+      // non-targeted ones and leave a targeted sleeper parked with work in its ring.
+      waiter.bumpAndWakeAll();
     }
   }
   return true;
